@@ -1,19 +1,624 @@
 package main
 
 import (
+	"verifharness/drv"
+
+	"context"
+	"encoding/json"
+	"flag"
 	"fmt"
 	"os"
+	"runtime"
+	"sort"
+	"strings"
+	"sync"
+	"time"
 
 	"github.com/open2b/scriggo"
 )
 
-func main() {
-	src, _ := os.ReadFile(os.Args[1])
-	p, err := scriggo.Build(scriggo.Files{"main.go": src}, nil)
+// C01: interpreted programs behave like gc.  Four case families, told apart by "fam":
+//
+//	intalu    {id, op, k, k2, x, y, forms}   one integer operation, written in several source forms
+//	initorder {id, nv, nf, deps}             a package-level dependency graph
+//	conv      {id, op, ...}                  string <-> int / []byte / []rune conversions
+//	minigo    {id, prog}                     a program of the mini language of MiniGo.tla
+//
+// The driver only writes Go source for a case (string templates), builds and runs it with the public
+// API and logs what was printed / returned.  No expected value is computed here.
+var (
+	flagChunk   = flag.Int("chunk", 200, "intalu / conv cases per generated program")
+	flagKeepSrc = flag.Bool("keepsrc", false, "echo the generated source in the observations (oracle guard, replays)")
+)
+
+// ---------------------------------------------------------------- running one program
+
+type runResult struct {
+	Lines   [][]any // printed lines: the arguments of each println, separators removed
+	Outcome string  // ok | builderror | panic | exit | hostpanic | timeout | error
+	Msg     string
+}
+
+// runProgram builds and runs src, capturing print/println through RunOptions.Print.
+func runProgram(src string) (res runResult) {
+	var cur []any
+	var mu sync.Mutex
+	defer func() {
+		if r := recover(); r != nil {
+			res.Outcome, res.Msg = "hostpanic", fmt.Sprint(r)
+		}
+		if len(cur) > 0 {
+			res.Lines = append(res.Lines, cur)
+		}
+	}()
+	p, err := scriggo.Build(scriggo.Files{"main.go": []byte(src)}, nil)
 	if err != nil {
-		fmt.Printf("build error %T: %v\n", err, err)
-		return
+		if _, ok := err.(*scriggo.BuildError); ok {
+			return runResult{Outcome: "builderror", Msg: err.Error()}
+		}
+		return runResult{Outcome: "error", Msg: fmt.Sprintf("%T: %v", err, err)}
 	}
-	err = p.Run(&scriggo.RunOptions{Print: func(v any) { fmt.Printf("[%T %v]", v, v) }})
-	fmt.Printf("\nrun: %T %v\n", err, err)
+	ctx, cancel := context.WithTimeout(context.Background(), 20*time.Second)
+	defer cancel()
+	err = p.Run(&scriggo.RunOptions{Context: ctx, Print: func(v any) {
+		mu.Lock()
+		defer mu.Unlock()
+		if s, ok := v.(string); ok {
+			if s == "\n" {
+				res.Lines = append(res.Lines, cur)
+				cur = nil
+				return
+			}
+			if s == " " {
+				return
+			}
+		}
+		cur = append(cur, v)
+	}})
+	switch e := err.(type) {
+	case nil:
+		res.Outcome = "ok"
+	case *scriggo.PanicError:
+		res.Outcome, res.Msg = "panic", e.Error()
+	case *scriggo.ExitError:
+		res.Outcome, res.Msg = "exit", e.Error()
+	default:
+		if err == context.DeadlineExceeded {
+			res.Outcome = "timeout"
+		} else {
+			res.Outcome, res.Msg = "error", fmt.Sprintf("%T: %v", err, err)
+		}
+	}
+	return res
+}
+
+// text of a printed line, as gc's println would write it (arguments separated by one space)
+func lineText(l []any) string {
+	parts := make([]string, len(l))
+	for i, v := range l {
+		parts[i] = fmt.Sprint(v)
+	}
+	return strings.Join(parts, " ")
+}
+
+func rawText(r runResult) string {
+	var b strings.Builder
+	for _, l := range r.Lines {
+		b.WriteString(lineText(l))
+		b.WriteByte('\n')
+	}
+	if r.Outcome != "ok" {
+		b.WriteString(r.Outcome + ": " + r.Msg + "\n")
+	}
+	return b.String()
+}
+
+// ---------------------------------------------------------------- big integers <-> decimal text
+
+type big struct {
+	S int   `json:"s"`
+	L []int `json:"l"`
+}
+
+// decimal text of a big integer given as base-10^4 limbs (no arithmetic: digit groups are concatenated)
+func (b big) dec() string {
+	if b.S == 0 || len(b.L) == 0 {
+		return "0"
+	}
+	var sb strings.Builder
+	if b.S < 0 {
+		sb.WriteByte('-')
+	}
+	for i := len(b.L) - 1; i >= 0; i-- {
+		if i == len(b.L)-1 {
+			fmt.Fprintf(&sb, "%d", b.L[i])
+		} else {
+			fmt.Fprintf(&sb, "%04d", b.L[i])
+		}
+	}
+	return sb.String()
+}
+
+// limbs of a printed decimal (cut into groups of four digits from the right)
+func bigOf(dec string) (big, bool) {
+	s := 1
+	if strings.HasPrefix(dec, "-") {
+		s, dec = -1, dec[1:]
+	}
+	dec = strings.TrimLeft(dec, "0")
+	if dec == "" {
+		return big{S: 0, L: []int{}}, true
+	}
+	var l []int
+	for len(dec) > 0 {
+		n := len(dec) - 4
+		if n < 0 {
+			n = 0
+		}
+		v := 0
+		for _, ch := range dec[n:] {
+			if ch < '0' || ch > '9' {
+				return big{}, false
+			}
+			v = v*10 + int(ch-'0')
+		}
+		l = append(l, v)
+		dec = dec[:n]
+	}
+	return big{S: s, L: l}, true
+}
+
+func isIntValue(v any) bool {
+	switch v.(type) {
+	case int, int8, int16, int32, int64, uint, uint8, uint16, uint32, uint64, uintptr:
+		return true
+	}
+	return false
+}
+
+// ---------------------------------------------------------------- intalu
+
+type aluCase struct {
+	ID    int      `json:"id"`
+	Fam   string   `json:"fam"`
+	Op    string   `json:"op"`
+	K     string   `json:"k"`
+	K2    string   `json:"k2"`
+	X     big      `json:"x"`
+	Y     big      `json:"y"`
+	Forms []string `json:"forms"`
+}
+
+var goOp = map[string]string{"add": "+", "sub": "-", "mul": "*", "div": "/", "rem": "%", "and": "&", "or": "|", "xor": "^",
+	"andnot": "&^", "shl": "<<", "shr": ">>", "eq": "==", "ne": "!=", "lt": "<", "le": "<=", "gt": ">", "ge": ">=", "neg": "-", "not": "^"}
+
+func isCmp(op string) bool {
+	switch op {
+	case "eq", "ne", "lt", "le", "gt", "ge":
+		return true
+	}
+	return false
+}
+
+var formNo = map[string]int{"var": 0, "lit": 1, "assign": 2, "cond": 3}
+
+// aluSource writes one program for a chunk of cases.
+func aluSource(cs []aluCase) string {
+	var b, m strings.Builder
+	b.WriteString("package main\n\n")
+	b.WriteString("func rec(id int, form int) {\n\tif e := recover(); e != nil {\n\t\tif err, ok := e.(error); ok {\n\t\t\tprintln(\"P\", id, form, err.Error())\n\t\t} else {\n\t\t\tprintln(\"Q\", id, form)\n\t\t}\n\t}\n}\n\n")
+	for _, c := range cs {
+		rt := c.K // result type
+		wide := "int64"
+		if strings.HasPrefix(c.K, "u") {
+			wide = "uint64"
+		}
+		if c.Op == "conv" {
+			rt = c.K2
+			wide = "int64"
+			if strings.HasPrefix(c.K2, "u") {
+				wide = "uint64"
+			}
+		}
+		for _, form := range c.Forms {
+			f := formNo[form]
+			fn := fmt.Sprintf("c%d_%d", c.ID, f)
+			tn := fmt.Sprintf("t%d_%d", c.ID, f)
+			unary := c.Op == "neg" || c.Op == "not" || c.Op == "conv"
+			switch {
+			case c.Op == "conv":
+				fmt.Fprintf(&b, "func %s(x %s) %s { return %s(x) }\n", fn, c.K, rt, c.K2)
+			case unary:
+				fmt.Fprintf(&b, "func %s(x %s) %s { return %sx }\n", fn, c.K, rt, goOp[c.Op])
+			case isCmp(c.Op) && form == "var":
+				fmt.Fprintf(&b, "func %s(x %s, y %s) bool { return x %s y }\n", fn, c.K, c.K2, goOp[c.Op])
+			case isCmp(c.Op) && form == "lit":
+				fmt.Fprintf(&b, "func %s(x %s, y %s) bool { return x %s %s }\n", fn, c.K, c.K2, goOp[c.Op], c.Y.dec())
+			case isCmp(c.Op) && form == "cond":
+				fmt.Fprintf(&b, "func %s(x %s, y %s) bool {\n\tif x %s y {\n\t\treturn true\n\t}\n\treturn false\n}\n", fn, c.K, c.K2, goOp[c.Op])
+			case form == "var":
+				fmt.Fprintf(&b, "func %s(x %s, y %s) %s { return x %s y }\n", fn, c.K, c.K2, rt, goOp[c.Op])
+			case form == "lit":
+				fmt.Fprintf(&b, "func %s(x %s, y %s) %s { return x %s %s }\n", fn, c.K, c.K2, rt, goOp[c.Op], c.Y.dec())
+			case form == "assign":
+				fmt.Fprintf(&b, "func %s(x %s, y %s) %s {\n\tx %s= y\n\treturn x\n}\n", fn, c.K, c.K2, rt, goOp[c.Op])
+			}
+			if unary {
+				fmt.Fprintf(&b, "func %s(x %s) {\n\tdefer rec(%d, %d)\n\tr := %s(x)\n\tprintln(\"V\", %d, %d, r, %s(r))\n}\n", tn, c.K, c.ID, f, fn, c.ID, f, wide)
+				fmt.Fprintf(&m, "\t%s(%s)\n", tn, c.X.dec())
+			} else if isCmp(c.Op) {
+				fmt.Fprintf(&b, "func %s(x %s, y %s) {\n\tdefer rec(%d, %d)\n\tr := %s(x, y)\n\tprintln(\"B\", %d, %d, r)\n}\n", tn, c.K, c.K2, c.ID, f, fn, c.ID, f)
+				fmt.Fprintf(&m, "\t%s(%s, %s)\n", tn, c.X.dec(), c.Y.dec())
+			} else {
+				fmt.Fprintf(&b, "func %s(x %s, y %s) {\n\tdefer rec(%d, %d)\n\tr := %s(x, y)\n\tprintln(\"V\", %d, %d, r, %s(r))\n}\n", tn, c.K, c.K2, c.ID, f, fn, c.ID, f, wide)
+				fmt.Fprintf(&m, "\t%s(%s, %s)\n", tn, c.X.dec(), c.Y.dec())
+			}
+		}
+	}
+	// main calls groups of at most 60 calls each: a Scriggo function can refer to at most 256 others
+	calls := strings.Split(strings.TrimSuffix(m.String(), "\n"), "\n")
+	var mm strings.Builder
+	for g := 0; g*60 < len(calls); g++ {
+		fmt.Fprintf(&b, "\nfunc g%d() {\n%s\n}\n", g, strings.Join(calls[g*60:min(g*60+60, len(calls))], "\n"))
+		fmt.Fprintf(&mm, "\tg%d()\n", g)
+	}
+	b.WriteString("\nfunc main() {\n" + mm.String() + "}\n")
+	return b.String()
+}
+
+type key struct{ id, form int }
+
+// aluRun runs a chunk and returns one observation per (case, form).
+func aluRun(cs []aluCase, retry bool) []any {
+	src := aluSource(cs)
+	res := runProgram(src)
+	if (res.Outcome == "builderror" || res.Outcome == "hostpanic") && len(cs) > 1 && retry {
+		// find the culprit: every case alone
+		var out []any
+		for _, c := range cs {
+			out = append(out, aluRun([]aluCase{c}, false)...)
+		}
+		return out
+	}
+	got := map[key]map[string]any{}
+	for _, l := range res.Lines {
+		if len(l) < 3 {
+			continue
+		}
+		tag, _ := l[0].(string)
+		id, ok1 := l[1].(int)
+		f, ok2 := l[2].(int)
+		if !ok1 || !ok2 {
+			continue
+		}
+		o := map[string]any{}
+		switch {
+		case tag == "V" && len(l) == 5 && isIntValue(l[3]) && isIntValue(l[4]):
+			v, _ := bigOf(fmt.Sprint(l[3]))
+			w, _ := bigOf(fmt.Sprint(l[4]))
+			o["t"], o["v"], o["w"], o["msg"] = "int", v, w, ""
+			o["vt"] = fmt.Sprintf("%T", l[3])
+		case tag == "B" && len(l) == 4:
+			bv, ok := l[3].(bool)
+			if !ok {
+				continue
+			}
+			v := big{S: 0, L: []int{}}
+			if bv {
+				v = big{S: 1, L: []int{1}}
+			}
+			o["t"], o["v"], o["w"], o["msg"], o["vt"] = "bool", v, v, "", "bool"
+		case tag == "P" && len(l) == 4:
+			z := big{S: 0, L: []int{}}
+			o["t"], o["v"], o["w"], o["msg"], o["vt"] = "panic", z, z, fmt.Sprint(l[3]), ""
+		case tag == "Q":
+			z := big{S: 0, L: []int{}}
+			o["t"], o["v"], o["w"], o["msg"], o["vt"] = "panic", z, z, "non-error panic value", ""
+		default:
+			continue
+		}
+		got[key{id, f}] = o
+	}
+	var out []any
+	for _, c := range cs {
+		for _, form := range c.Forms {
+			o := got[key{c.ID, formNo[form]}]
+			if o == nil {
+				z := big{S: 0, L: []int{}}
+				t := "none"
+				if res.Outcome != "ok" {
+					t = res.Outcome
+				}
+				o = map[string]any{"t": t, "v": z, "w": z, "msg": res.Msg, "vt": ""}
+			}
+			o["id"], o["fam"], o["op"], o["k"], o["k2"], o["x"], o["y"], o["form"] = c.ID, "intalu", c.Op, c.K, c.K2, c.X, c.Y, form
+			o["forms"] = c.Forms
+			if *flagKeepSrc {
+				o["src"] = src
+				o["raw"] = rawText(res)
+			}
+			out = append(out, o)
+		}
+	}
+	return out
+}
+
+// ---------------------------------------------------------------- initorder
+
+type initCase struct {
+	ID   int     `json:"id"`
+	Fam  string  `json:"fam"`
+	NV   int     `json:"nv"`
+	NF   int     `json:"nf"`
+	Deps [][]int `json:"deps"`
+}
+
+// initSource: variable i is  var vI = t(I, <referenced variables>, <calls of referenced functions>);
+// function j refers to variables by reading them and to functions by `_ = fJ` (never calls: recursion
+// among the functions must not run).
+func initSource(c initCase) string {
+	var b strings.Builder
+	b.WriteString("package main\n\nfunc t(n int, d ...int) int {\n\tprintln(n)\n\treturn n\n}\n\n")
+	for i := 1; i <= c.NV; i++ {
+		fmt.Fprintf(&b, "var v%d = t(%d", i, i)
+		for _, d := range c.Deps[i-1] {
+			if d <= c.NV {
+				fmt.Fprintf(&b, ", v%d", d)
+			} else {
+				fmt.Fprintf(&b, ", f%d()", d)
+			}
+		}
+		b.WriteString(")\n")
+	}
+	for j := c.NV + 1; j <= c.NV+c.NF; j++ {
+		fmt.Fprintf(&b, "\nfunc f%d() int {\n", j)
+		sum := "0"
+		for _, d := range c.Deps[j-1] {
+			if d <= c.NV {
+				sum += fmt.Sprintf(" + v%d", d)
+			} else {
+				fmt.Fprintf(&b, "\t_ = f%d\n", d)
+			}
+		}
+		fmt.Fprintf(&b, "\treturn %s\n}\n", sum)
+	}
+	b.WriteString("\nfunc main() {\n\tprintln(0)\n}\n")
+	return b.String()
+}
+
+func initRun(c initCase) []any {
+	src := initSource(c)
+	res := runProgram(src)
+	order := []int{}
+	for _, l := range res.Lines {
+		if len(l) == 1 {
+			if n, ok := l[0].(int); ok {
+				order = append(order, n)
+				continue
+			}
+		}
+		order = append(order, -1)
+	}
+	o := map[string]any{"id": c.ID, "fam": "initorder", "nv": c.NV, "nf": c.NF, "deps": c.Deps, "outcome": res.Outcome, "order": order, "msg": res.Msg}
+	if *flagKeepSrc {
+		o["src"] = src
+		o["raw"] = rawText(res)
+	}
+	return []any{o}
+}
+
+// ---------------------------------------------------------------- conv
+
+type convCase struct {
+	ID  int    `json:"id"`
+	Fam string `json:"fam"`
+	Op  string `json:"op"`
+	K   string `json:"k"`
+	V   int    `json:"v"`
+	A   []int  `json:"a"`
+}
+
+func strLit(a []int) string {
+	var b strings.Builder
+	b.WriteByte('"')
+	for _, c := range a {
+		fmt.Fprintf(&b, "\\x%02x", c)
+	}
+	b.WriteByte('"')
+	return b.String()
+}
+
+func intList(a []int) string {
+	parts := make([]string, len(a))
+	for i, v := range a {
+		parts[i] = fmt.Sprint(v)
+	}
+	return strings.Join(parts, ", ")
+}
+
+func convSource(cs []convCase) string {
+	var b, m strings.Builder
+	b.WriteString("package main\n\n")
+	b.WriteString("func showS(id int, s string) {\n\tprint(\"S\", id)\n\tfor i := 0; i < len(s); i++ {\n\t\tprint(\" \", s[i])\n\t}\n\tprintln()\n}\n")
+	b.WriteString("func showR(id int, r []rune) {\n\tprint(\"S\", id)\n\tfor i := 0; i < len(r); i++ {\n\t\tprint(\" \", r[i])\n\t}\n\tprintln()\n}\n")
+	b.WriteString("func showB(id int, r []byte) {\n\tprint(\"S\", id)\n\tfor i := 0; i < len(r); i++ {\n\t\tprint(\" \", r[i])\n\t}\n\tprintln()\n}\n")
+	b.WriteString("func showI(id int, r []int) {\n\tprint(\"S\", id)\n\tfor i := 0; i < len(r); i++ {\n\t\tprint(\" \", r[i])\n\t}\n\tprintln()\n}\n\n")
+	for _, c := range cs {
+		switch c.Op {
+		case "i2s":
+			fmt.Fprintf(&b, "func c%d(x %s) string { return string(x) }\n", c.ID, c.K)
+			fmt.Fprintf(&m, "\tshowS(%d, c%d(%d))\n", c.ID, c.ID, c.V)
+		case "r2s":
+			fmt.Fprintf(&b, "func c%d(r []rune) string { return string(r) }\n", c.ID)
+			fmt.Fprintf(&m, "\tshowS(%d, c%d([]rune{%s}))\n", c.ID, c.ID, intList(c.A))
+		case "s2r":
+			fmt.Fprintf(&b, "func c%d(s string) []rune { return []rune(s) }\n", c.ID)
+			fmt.Fprintf(&m, "\tshowR(%d, c%d(%s))\n", c.ID, c.ID, strLit(c.A))
+		case "range":
+			fmt.Fprintf(&b, "func c%d(s string) []int {\n\to := []int{}\n\tfor i, r := range s {\n\t\to = append(o, i, int(r))\n\t}\n\treturn o\n}\n", c.ID)
+			fmt.Fprintf(&m, "\tshowI(%d, c%d(%s))\n", c.ID, c.ID, strLit(c.A))
+		case "s2b":
+			fmt.Fprintf(&b, "func c%d(s string) []byte { return []byte(s) }\n", c.ID)
+			fmt.Fprintf(&m, "\tshowB(%d, c%d(%s))\n", c.ID, c.ID, strLit(c.A))
+		case "b2s":
+			fmt.Fprintf(&b, "func c%d(r []byte) string { return string(r) }\n", c.ID)
+			fmt.Fprintf(&m, "\tshowS(%d, c%d([]byte{%s}))\n", c.ID, c.ID, intList(c.A))
+		}
+	}
+	calls := strings.Split(strings.TrimSuffix(m.String(), "\n"), "\n")
+	var mm strings.Builder
+	for g := 0; g*60 < len(calls); g++ {
+		fmt.Fprintf(&b, "\nfunc g%d() {\n%s\n}\n", g, strings.Join(calls[g*60:min(g*60+60, len(calls))], "\n"))
+		fmt.Fprintf(&mm, "\tg%d()\n", g)
+	}
+	b.WriteString("\nfunc main() {\n" + mm.String() + "}\n")
+	return b.String()
+}
+
+func convRun(cs []convCase, retry bool) []any {
+	src := convSource(cs)
+	res := runProgram(src)
+	if res.Outcome != "ok" && len(cs) > 1 && retry {
+		var out []any
+		for _, c := range cs {
+			out = append(out, convRun([]convCase{c}, false)...)
+		}
+		return out
+	}
+	got := map[int][]int{}
+	for _, l := range res.Lines {
+		if len(l) < 2 {
+			continue
+		}
+		if tag, _ := l[0].(string); tag != "S" {
+			continue
+		}
+		id, ok := l[1].(int)
+		if !ok {
+			continue
+		}
+		vals := []int{}
+		for _, v := range l[2:] {
+			switch x := v.(type) {
+			case uint8:
+				vals = append(vals, int(x))
+			case int32:
+				vals = append(vals, int(x))
+			case int:
+				vals = append(vals, x)
+			default:
+				vals = append(vals, -999999)
+			}
+		}
+		got[id] = vals
+	}
+	var out []any
+	for _, c := range cs {
+		o := map[string]any{"id": c.ID, "fam": "conv", "op": c.Op, "k": c.K, "v": c.V, "a": c.A, "msg": ""}
+		if vals, ok := got[c.ID]; ok {
+			o["outcome"], o["out"] = "ok", vals
+		} else {
+			o["outcome"], o["out"], o["msg"] = "none", []int{}, res.Msg
+			if res.Outcome != "ok" {
+				o["outcome"] = res.Outcome
+			}
+		}
+		if *flagKeepSrc {
+			o["src"] = src
+			o["raw"] = rawText(res)
+		}
+		out = append(out, o)
+	}
+	return out
+}
+
+// ---------------------------------------------------------------- main loop
+
+type job func() []any
+
+func main() {
+	drv.Main(&drv.Sub{Whole: func(in, out string, seed int64, args []string) error {
+		lines, err := drv.ReadLines(in)
+		if err != nil {
+			return err
+		}
+		var jobs []job
+		var alu []aluCase
+		var conv []convCase
+		for _, raw := range lines {
+			var h struct {
+				Fam string `json:"fam"`
+			}
+			if err := json.Unmarshal(raw, &h); err != nil {
+				return err
+			}
+			switch h.Fam {
+			case "intalu":
+				var c aluCase
+				if err := json.Unmarshal(raw, &c); err != nil {
+					return err
+				}
+				alu = append(alu, c)
+			case "conv":
+				var c convCase
+				if err := json.Unmarshal(raw, &c); err != nil {
+					return err
+				}
+				conv = append(conv, c)
+			case "initorder":
+				var c initCase
+				if err := json.Unmarshal(raw, &c); err != nil {
+					return err
+				}
+				jobs = append(jobs, func() []any { return initRun(c) })
+			default:
+				return fmt.Errorf("unknown family %q", h.Fam)
+			}
+		}
+		sort.SliceStable(alu, func(i, j int) bool { return alu[i].ID < alu[j].ID })
+		for i := 0; i < len(alu); i += *flagChunk {
+			part := alu[i:min(i+*flagChunk, len(alu))]
+			jobs = append(jobs, func() []any { return aluRun(part, true) })
+		}
+		for i := 0; i < len(conv); i += *flagChunk {
+			part := conv[i:min(i+*flagChunk, len(conv))]
+			jobs = append(jobs, func() []any { return convRun(part, true) })
+		}
+		results := make([][]any, len(jobs))
+		var wg sync.WaitGroup
+		ch := make(chan int)
+		n := *drv.FlagJ
+		if n <= 0 {
+			n = runtime.NumCPU()
+		}
+		for w := 0; w < n; w++ {
+			wg.Add(1)
+			go func() {
+				defer wg.Done()
+				for i := range ch {
+					results[i] = jobs[i]()
+				}
+			}()
+		}
+		for i := range jobs {
+			ch <- i
+		}
+		close(ch)
+		wg.Wait()
+		f, err := os.Create(out)
+		if err != nil {
+			return err
+		}
+		defer f.Close()
+		enc := json.NewEncoder(f)
+		enc.SetEscapeHTML(false)
+		for _, rs := range results {
+			for _, r := range rs {
+				if err := enc.Encode(r); err != nil {
+					return err
+				}
+			}
+		}
+		return nil
+	}})
 }
